@@ -21,7 +21,7 @@ import numpy as np
 ID = "C13"
 LEVEL = "exploration"
 RULE = ("one case = one wrapper instance (class, selector/axis/shape/bounds/periods or polygon, random coefficients of "
-        "the recording callable) + 6..40 hostile argument points (+-0, 1e-150..1e100, tiny negatives, exact multiples "
+        "the recording callable) + 6..40 hostile argument points (+-0, magnitude classes subnormal..1e300, tiny negatives, exact multiples "
         "of the period +-1 ulp, atan2 branch cut, axis points, clamp bounds +-1 ulp), or one sampler call (function, "
         "range/points/grid, counts 1..17, input container kind); families are drawn with fixed weights so that every "
         "class/function is driven; optional arguments (each clamp bound omitted / explicit +-inf / finite, each axis "
@@ -39,12 +39,13 @@ LEVEL_NOTE = ("trusted: CPython float/Fraction arithmetic, libm hypot/atan2 (to 
 TECHNIQUE = ("runtime monitoring: argument recorder — recording Python callables wrapped by the real Cython wrappers / "
              "samplers; received arguments and returned values compared with exact-rational / libm reference mapping")
 ASSUMPTIONS = [
-    "hypot-type mappers are judged for max(|x|,|y|) in {0} U [1e-150, 1e100] only (x*x under/overflows outside: stated bound of DESIGN C13)",
+    "the RADIUS passed by the hypot-type mappers is judged for max(|x|,|y|) in {0} U [1.5e-154, 9e153] only (x*x + y*y of the as-built code "
+    "under/overflows outside: stated bound of DESIGN C13); the angle, z and the vector rotation are judged over the whole finite range incl. subnormals",
     "on the rotation axis (x = y = 0) the toroidal angle is undefined: any received phi / any rotation about z is accepted",
     "phi = -pi received for y = -0.0, x < 0 is accepted as the same angle as +pi (IEEE signed-zero convention)",
     "mask query points lie >= 1e-9 * polygon size away from every polygon edge; polygons are certified simple with exact integer arithmetic",
     "range samplers with 1 sample and min < max cannot contain both end points: only v[0] = f(x[0]) and min <= x[0] <= max are judged",
-    "sampler ranges and periodic arguments are bounded by 1e100 / 1e30 in magnitude",
+    "arguments, sampler ranges, clamp bounds and periodic arguments are bounded by 1e300 in magnitude",
 ]
 ASAN_MODULES = ["cherab.core.math.mappers", "cherab.core.math.clamp", "cherab.core.math.slice", "cherab.core.math.mask", "cherab.core.math.transform.periodic", "cherab.core.math.transform.cylindrical", "cherab.core.math.samplers"]
 ASAN = dict(cases=4000, workers=8, timecap=240)
@@ -52,10 +53,11 @@ QUICK = dict(cases=4000, workers=2, timecap=45)
 THOROUGH = dict(cases=150000, workers=16, timecap=600)
 REQUIRED = {"received_exact": 5000, "received_computed": 1000, "value_exact": 5000, "vector_rotation": 500,
             "periodic_membership": 2000, "periodic_congruence": 2000, "mask_points": 1000,
-            "sampler_entries": 5000, "sampler_grid": 1000}
+            "sampler_entries": 5000, "sampler_grid": 1000, "sampler_alias": 5000}
 
 ULPS = 16.0
 TINY = 1e-300
+R_LO, R_HI = 1.5e-154, 9e153      # window of max(|x|,|y|) in which sqrt(x*x + y*y) is exact to rounding
 
 SCALAR_PERIODIC = ["PeriodicTransform1D", "PeriodicTransform2D", "PeriodicTransform3D"]
 VECTOR_PERIODIC = ["VectorPeriodicTransform1D", "VectorPeriodicTransform2D", "VectorPeriodicTransform3D"]
@@ -88,6 +90,8 @@ _NDIM = {"IsoMapper2D": 2, "IsoMapper3D": 3, "Swizzle2D": 2, "Swizzle3D": 3, "Sl
 # ----------------------------------------------------------------------------------------------
 
 def _t(a):
+    if a in (math.inf, -math.inf):      # a wrapper may legitimately pass an overflowed radius outside its judged window
+        return math.copysign(1.0, a)
     return a / (1.0 + abs(a))
 
 
@@ -138,9 +142,19 @@ def _sign(rng):
     return -1.0 if rng.random() < 0.5 else 1.0
 
 
-def _hostile(rng, hi=100.0):
-    """one finite double from the hostile classes; returns (value, class)"""
-    k = int(rng.integers(8))
+def _subnormal(rng):
+    """a positive subnormal double (or the smallest normal)"""
+    k = int(rng.integers(4))
+    if k == 0:
+        return [5e-324, 1e-323, 2.2250738585072014e-308, 2.225073858507201e-308][int(rng.integers(4))]
+    if k == 1:
+        return float(int(rng.integers(1, 2 ** 30))) * 5e-324
+    return float(10 ** rng.uniform(-323, -308))
+
+
+def _hostile(rng, hi=300.0):
+    """one finite double from the hostile magnitude classes; returns (value, class)"""
+    k = int(rng.integers(11))
     if k == 0:
         return (0.0 if rng.random() < 0.5 else -0.0), "zero"
     if k == 1:
@@ -153,10 +167,16 @@ def _hostile(rng, hi=100.0):
         return _sign(rng) * float(rng.integers(0, 11)), "integer"
     if k == 6:
         return _sign(rng) * float(10 ** rng.uniform(1, min(15.0, hi))), "large"
-    return _sign(rng) * float(10 ** rng.uniform(min(15.0, hi), hi)), "huge"
+    if k == 7:
+        return _sign(rng) * _subnormal(rng), "subnormal"
+    if k == 8:
+        return _sign(rng) * float(10 ** rng.uniform(-308, -150)), "1e-308..1e-150"
+    if k == 9 and hi > 100:
+        return _sign(rng) * float(10 ** rng.uniform(100, hi)), "1e100..1e%d" % int(hi)
+    return _sign(rng) * float(10 ** rng.uniform(min(15.0, hi), min(hi, 100.0))), "huge"
 
 
-def _points(rng, nd, n, hi=100.0):
+def _points(rng, nd, n, hi=300.0):
     pts, cl = [], []
     for _ in range(n):
         p = [_hostile(rng, hi) for _ in range(nd)]
@@ -174,7 +194,11 @@ def _nudge(rng, x):
 
 def _periodic_coord(rng, p):
     """argument classes for one periodic axis with period p > 0"""
-    k = int(rng.integers(12))
+    k = int(rng.integers(14))
+    if k == 12:
+        return _sign(rng) * float(10 ** rng.uniform(30, 300)), "giant<=1e300"
+    if k == 13:
+        return _sign(rng) * _subnormal(rng), "subnormal"
     if k == 0:
         return -float(10 ** rng.uniform(-300, -17)) * (p if rng.random() < 0.5 else 1.0), "tiny-negative"
     if k == 1:
@@ -221,16 +245,31 @@ def _period(rng, allow_zero):
 
 def _cyl_point(rng):
     def mag():
-        k = int(rng.integers(6))
+        # magnitude classes from subnormal to 1e300; which clause is judged where is decided per wrapper by the oracle
+        k = int(rng.integers(14))
         if k == 0:
-            return float(10 ** rng.uniform(-150, -20)), "tiny"
+            return float(10 ** rng.uniform(-150, -20)), "1e-150..1e-20"
         if k == 1:
             return float(10 ** rng.uniform(-20, -1)), "small"
-        if k <= 3:
+        if k <= 4:
             return float(rng.uniform(0.1, 10)), "ordinary"
-        if k == 4:
+        if k == 5:
             return float(10 ** rng.uniform(1, 15)), "large"
-        return float(10 ** rng.uniform(15, 100)), "huge"
+        if k == 6:
+            return float(10 ** rng.uniform(15, 100)), "1e15..1e100"
+        if k == 7:
+            return _subnormal(rng), "subnormal"
+        if k == 8:
+            return float(10 ** rng.uniform(-308, -200)), "1e-308..1e-200"
+        if k == 9:
+            return float(10 ** rng.uniform(-200, -160)), "1e-200..1e-160"
+        if k == 10:
+            return float(10 ** rng.uniform(-160, -150)), "1e-160..1e-150"
+        if k == 11:
+            return float(10 ** rng.uniform(100, 150)), "1e100..1e150"
+        if k == 12:
+            return float(10 ** rng.uniform(150, 200)), "1e150..1e200"
+        return float(10 ** rng.uniform(200, 300)), "1e200..1e300"
     z, _ = _hostile(rng)
     k = int(rng.integers(10))
     if k == 0:
@@ -293,7 +332,7 @@ def _axis_sel(rng, nd):
     return a if k == 0 else (names[a] if k == 1 else names[a].upper())
 
 
-def _range(rng, hi=100.0):
+def _range(rng, hi=300.0):
     k = int(rng.integers(6))
     if k == 0:
         a, _ = _hostile(rng, hi)
@@ -655,7 +694,7 @@ def _gen_named(rng, name):
         case["f"] = _coefs(rng, nd, name.startswith("samplevector"))
         case["container"] = ["list", "array", "strided", "fortran", "float32"][int(rng.integers(5))]
         # float32 input arrays: keep the values finite after the cast (|x| < 3.4e38)
-        case["points"], _ = _points(rng, nd, int(rng.integers(1, 41)), 30.0 if case["container"] == "float32" else 100.0)
+        case["points"], _ = _points(rng, nd, int(rng.integers(1, 41)), 30.0 if case["container"] == "float32" else 300.0)
     elif name in GRID_SAMPLERS:
         nd = SAMPLER_ND[name]
         case["f"] = _coefs(rng, nd, name.startswith("samplevector"))
@@ -709,7 +748,11 @@ def fixed_cases(tier):
     # branch cut / axis / quadrants
     cyl = [[-1.0, 0.0, 2.0], [-1.0, -0.0, 2.0], [0.0, 0.0, 1.0], [-0.0, 0.0, 1.0], [-0.0, -0.0, 1.0], [0.0, -0.0, 1.0],
            [3.0, 4.0, 0.0], [-3.0, 4.0, 0.0], [-3.0, -4.0, 0.0], [3.0, -4.0, 0.0], [0.0, 2.0, 0.0], [0.0, -2.0, 0.0],
-           [1e100, 1e100, 1.0], [1e-150, -1e-150, 1.0], [-1e-150, 1e-300, 1.0], [-1e100, -1e-100, -1.0], [2.0, 0.0, -0.0]]
+           [1e100, 1e100, 1.0], [1e-150, -1e-150, 1.0], [-1e-150, 1e-300, 1.0], [-1e100, -1e-100, -1.0], [2.0, 0.0, -0.0],
+           # every magnitude class, at non-zero toroidal angles: subnormal, 1e-200, 1e-160, 1e-150 ... 1e150, 1e200, 1e300
+           [-1e-160, 0.0, 0.0], [0.0, 1e-170, 0.0], [-5e-324, 0.0, 1.0], [5e-324, 5e-324, 1.0], [-3e-310, 4e-310, 1.0],
+           [1e-200, -1e-200, 0.5], [-1e-155, 1e-156, 0.5], [-1e-150, -1e-150, 0.5], [-1e150, 1e150, 0.5], [-1e160, 0.0, 0.0],
+           [0.0, -1e200, 2.0], [1e200, -1e200, 1.0], [-1e300, 1e-300, 1.0], [1e-300, 1e300, 1.0], [-1e300, -1e300, 1.0]]
     for nm, f in (("AxisymmetricMapper", f2), ("VectorAxisymmetricMapper", v2), ("CylindricalTransform", f3),
                   ("VectorCylindricalTransform", v3)):
         out.append({"w": nm, "f": f, "pts": cyl, "cls": ["fixed"] * len(cyl)})
@@ -961,12 +1004,6 @@ def _run_wrapper(case, ctx):
         f.calls.clear()
         if extra is not None:
             extra.calls.clear()
-        # ---- restrictions stated in ASSUMPTIONS --------------------------------------------------
-        if name in CYL:
-            m = max(abs(x[0]), abs(x[1]))
-            if m != 0.0 and not (1e-150 <= m <= 1e100):
-                ctx.skip("hypot-type mapper outside [1e-150,1e100]: x*x under/overflows (stated bound)")
-                continue
         res = w(*x)
         if vec:
             res = _vec(res)
@@ -1012,6 +1049,8 @@ def _judge_cyl(ctx, name, f, res, x, vec):
         return
     r_want = math.hypot(x[0], x[1])
     on_axis = (x[0] == 0.0 and x[1] == 0.0)
+    mxy = max(abs(x[0]), abs(x[1]))
+    r_window = on_axis or (R_LO <= mxy <= R_HI)
     # mathematically, y = -0.0 is y = 0: the principal angle on the branch cut is +pi
     y_math = 0.0 if x[1] == 0.0 else x[1]
     phi_want = math.atan2(y_math, x[0]) if not on_axis else 0.0
@@ -1020,14 +1059,18 @@ def _judge_cyl(ctx, name, f, res, x, vec):
         if len(args) != (3 if has_phi else 2):
             ctx.viol("%s:received-args" % name, "wrong number of arguments received", got=list(args), x=x)
             return
-        # radius
-        ctx.mon("received_computed")
-        d = abs(args[0] - r_want)
-        ctx.margin("received_computed", d / _tol(r_want))
-        if not (d <= _tol(r_want)):
-            ctx.viol("%s:received-args:r" % name, "radius passed to the wrapped function is not sqrt(x^2+y^2)",
-                     x=x, got=args[0], want=r_want, tol=_tol(r_want))
-            ok = False
+        # radius: judged where sqrt(x*x + y*y) of the as-built code is exact to rounding, i.e. the larger square is a
+        # normal double and the sum cannot overflow; atan2, z and the rotation are judged over the whole finite range
+        if r_window:
+            ctx.mon("received_computed")
+            d = abs(args[0] - r_want)
+            ctx.margin("received_computed", d / _tol(r_want))
+            if not (d <= _tol(r_want)):
+                ctx.viol("%s:received-args:r" % name, "radius passed to the wrapped function is not sqrt(x^2+y^2)",
+                         x=x, got=args[0], want=r_want, tol=_tol(r_want))
+                ok = False
+        else:
+            ctx.skip("radius not judged: max(|x|,|y|) outside [1.5e-154, 9e153] where x*x + y*y under/overflows (stated bound)")
         # z: pass-through
         ctx.mon("received_exact")
         if not (args[-1] == x[2]):
@@ -1072,13 +1115,17 @@ def _judge_cyl(ctx, name, f, res, x, vec):
             ctx.viol("%s:value:not-a-rotation" % name, "returned vector is not a rotation about z of the wrapped function's vector",
                      x=x, got=list(res), inner=list(ret))
         return
-    c, s = x[0] / r_want, y_math / r_want
+    # cos / sin of the toroidal angle from exactly rescaled coordinates (power-of-two scaling: no under/overflow)
+    e = math.frexp(mxy)[1]
+    xs, ys = math.ldexp(x[0], -e), math.ldexp(y_math, -e)
+    rs = math.hypot(xs, ys)
+    c, s = xs / rs, ys / rs
     want = (ret[0] * c - ret[1] * s, ret[0] * s + ret[1] * c)
     ctx.mon("vector_rotation", 2)
     d = max(abs(res[0] - want[0]), abs(res[1] - want[1]))
     ctx.margin("vector_rotation", d / atol)
     if not (d <= atol):
-        ctx.viol("%s:value:rotation" % name, "returned vector is not the wrapped function's vector rotated by the toroidal angle atan2(y,x)",
+        ctx.viol("%s:value:rotation%s" % (name, "" if r_window else ":where-x2+y2-under/overflows"), "returned vector is not the wrapped function's vector rotated by the toroidal angle atan2(y,x)",
                  x=x, got=list(res), want=[want[0], want[1], ret[2]], inner=list(ret), tol=atol)
 
 
@@ -1261,43 +1308,114 @@ def _run_mask(case, ctx):
 
 # ---- samplers ---------------------------------------------------------------------------------
 
+SIBLING = {"sample1d": "sample2d", "sample2d": "samplevector2d", "samplevector2d": "sample2d",
+           "sample3d": "samplevector3d", "samplevector3d": "sample3d"}
+
+
+def _sibling_coefs(name, sib, coefs):
+    """coefficients of the recording function for the sibling sampler, derived deterministically from the case's"""
+    if name == "sample1d":                       # 1-D scalar -> 2-D scalar
+        return list(coefs) + [0.37]
+    if sib.startswith("samplevector"):           # scalar -> vector
+        return [list(coefs), list(coefs[::-1]), [0.5 * c + 0.1 for c in coefs]]
+    return list(coefs[0])                        # vector -> scalar
+
+
 def _run_sampler(case, ctx):
-    cm = _mod(ctx)
+    """one sampler case = a short HISTORY of calls: the call of the case; the same call again after the caller modified every
+    returned array in place; a call with different arguments (count + 1 / reversed points); for range samplers a call of
+    the sibling sampler with the same (min, max, samples) triples on rotated axes.  Every call is judged against a fresh
+    reference, and no returned array may share memory with another returned array, an earlier result or an input."""
     name = case["w"]
+    if name in RANGE_SAMPLERS:
+        spec = {"ranges": [list(r) for r in case["ranges"]]}
+    elif name in POINT_SAMPLERS:
+        spec = {"points": case["points"], "container": case.get("container", "list")}
+    else:
+        spec = {"axes": case["axes"], "container": case.get("container", "list")}
+    first = _sampler_call(ctx, name, case["f"], spec, "")
+    if first is None:
+        return
+    seen = list(first)
+    _mutate(first)
+    after = ":after-caller-modified-earlier-result"
+    history = [(name, case["f"], spec)]                                     # the same arguments again
+    if name in RANGE_SAMPLERS:
+        r = spec["ranges"]
+        history.append((name, case["f"], {"ranges": [[r[0][0], r[0][1], r[0][2] + 1]] + r[1:]}))     # different count
+        sib = SIBLING[name]
+        rr = (r + r) if name == "sample1d" else (r[1:] + r[:1])             # same triples, other axes, other sampler
+        history.append((sib, _sibling_coefs(name, sib, case["f"]), {"ranges": rr}))
+        history.append((name, case["f"], spec))                             # and the original call once more
+    elif name in POINT_SAMPLERS:
+        history.append((name, case["f"], {"points": spec["points"][::-1], "container": spec["container"]}))
+    else:
+        history.append((name, case["f"], {"axes": [a[::-1] for a in spec["axes"]], "container": spec["container"]}))
+    for nm, coefs, sp in history:
+        got = _sampler_call(ctx, nm, coefs, sp, after)
+        ctx.mon("sampler_alias")
+        if got is None:
+            return
+        for i, a in enumerate(got):
+            for b_ in seen:
+                ctx.mon("sampler_alias")
+                if np.shares_memory(a, b_):
+                    ctx.viol("%s:result-shares-memory-with-earlier-result" % nm,
+                             "an array returned by the sampler shares memory with an array returned by an earlier call "
+                             "(the caller's in-place changes leak into later results)", array_index=i, first_call=name)
+                    break
+        seen.extend(got)
+        _mutate(got)
+
+
+def _mutate(arrays):
+    """what a caller may do with arrays it received: modify them in place"""
+    for a in arrays:
+        if a.flags.writeable and a.size:
+            a *= 100.0
+            a += 1.0
+
+
+def _sampler_call(ctx, name, coefs, spec, tag):
+    """call one sampler once, judge the result against a fresh reference; returns the list of returned ndarray objects"""
+    cm = _mod(ctx)
     nd = SAMPLER_ND[name]
     vec = name.startswith("samplevector")
-    f = Rec(case["f"], vector=vec)
+    f = Rec(coefs, vector=vec)
     fn = getattr(cm, name)
     comp = 3 if vec else 1
+    inputs = []
 
     def expect(args):
         v = f.value(tuple(float(a) for a in args))
         return v if vec else (v,)
 
     if name in RANGE_SAMPLERS:
-        ranges = case["ranges"]
+        ranges = spec["ranges"]
         out = fn(f, *[tuple(r) for r in ranges])
         ctx.nontrivial()
-        if not ctx.check(isinstance(out, tuple) and len(out) == nd + 1, "%s:return-structure" % name,
-                         "range sampler must return (axis points..., samples)", monitor="sampler_grid"):
-            return
-        grids = [np.asarray(g) for g in out[:nd]]
-        v = np.asarray(out[nd])
+        if not ctx.check(isinstance(out, tuple) and len(out) == nd + 1 and all(isinstance(o, np.ndarray) for o in out),
+                         "%s:return-structure" % name, "range sampler must return (axis points..., samples) as arrays", monitor="sampler_grid"):
+            return None
+        returned = list(out)
+        grids = list(out[:nd])
+        v = out[nd]
         for ax, (g, (a, b, n)) in enumerate(zip(grids, ranges)):
             axn = "xyz"[ax]
-            ctx.cls("count:%s" % ("1" if n == 1 else "2" if n == 2 else "3-17" if n <= 17 else ">17"))
-            if not ctx.check(g.shape == (n,) and g.dtype == np.float64 and bool(np.all(np.isfinite(g))), "%s:grid-shape:%s" % (name, axn),
+            if not tag:
+                ctx.cls("count:%s" % ("1" if n == 1 else "2" if n == 2 else "3-17" if n <= 17 else ">17"))
+            if not ctx.check(g.shape == (n,) and g.dtype == np.float64 and bool(np.all(np.isfinite(g))), "%s:grid-shape:%s%s" % (name, axn, tag),
                              "returned axis points have the wrong length / dtype or are not finite", monitor="sampler_grid",
                              shape=list(g.shape), n=n, range=[a, b]):
-                return
+                return None
             fa, fb = float(a), float(b)
             if n == 1:
                 if fa < fb:
                     ctx.skip("1 sample on a range with min<max: both end points cannot be included (only min<=x0<=max judged)")
-                ctx.check(fa <= g[0] <= fb, "%s:grid-single-point-outside-range:%s" % (name, axn),
+                ctx.check(fa <= g[0] <= fb, "%s:grid-single-point-outside-range:%s%s" % (name, axn, tag),
                           "single sample point outside [min, max]", monitor="sampler_grid", got=float(g[0]), range=[a, b])
                 continue
-            ctx.check(g[0] == fa and g[-1] == fb, "%s:grid-end-points:%s" % (name, axn),
+            ctx.check(g[0] == fa and g[-1] == fb, "%s:grid-end-points:%s%s" % (name, axn, tag),
                       "sample grid does not include both end points", monitor="sampler_grid",
                       got=[float(g[0]), float(g[-1])], want=[fa, fb], n=n)
             Fa, Fb = Fraction(fa), Fraction(fb)
@@ -1310,25 +1428,29 @@ def _run_sampler(case, ctx):
             ctx.mon("sampler_grid", n)
             ctx.margin("sampler_grid", worst / tol)
             if not (worst <= tol):
-                ctx.viol("%s:grid-not-evenly-spaced:%s" % (name, axn), "sample points are not min + i (max-min)/(n-1)",
+                ctx.viol("%s:grid-not-evenly-spaced:%s%s" % (name, axn, tag), "sample points are not min + i (max-min)/(n-1)",
                          got=[float(t) for t in g[:6]], range=[a, b], n=n, worst=worst, tol=tol)
         shape = tuple(int(r[2]) for r in ranges) + ((3,) if vec else ())
         coords = [[float(t) for t in g] for g in grids]
     elif name in POINT_SAMPLERS:
-        pts = case["points"]
-        cont = case.get("container", "list")
-        ctx.cls("container:" + cont)
+        pts = spec["points"]
+        cont = spec["container"]
+        if not tag:
+            ctx.cls("container:" + cont)
         if nd == 1:
             arg = _container(cont if cont != "fortran" else "array", [p[0] for p in pts])
         else:
             arg = _container(cont, pts)
-        conv = np.asarray(arg, dtype=float).reshape(len(pts), nd)
-        v = np.asarray(fn(f, arg))
+        if isinstance(arg, np.ndarray):
+            inputs.append(arg)
+        conv = np.array(arg, dtype=float).reshape(len(pts), nd)
+        v = fn(f, arg)
         ctx.nontrivial()
         shape = (len(pts),) + ((3,) if vec else ())
-        if not ctx.check(v.shape == shape and v.dtype == np.float64, "%s:shape" % name, "returned sample array has the wrong shape / dtype",
-                         monitor="sampler_entries", got=list(v.shape), want=list(shape)):
-            return
+        if not ctx.check(isinstance(v, np.ndarray) and v.shape == shape and v.dtype == np.float64, "%s:shape%s" % (name, tag),
+                         "returned sample array has the wrong type / shape / dtype", monitor="sampler_entries", want=list(shape)):
+            return None
+        returned = [v]
         bad = None
         for i in range(len(pts)):
             want = expect(conv[i])
@@ -1337,23 +1459,35 @@ def _run_sampler(case, ctx):
             if not _same(got, want) and bad is None:
                 bad = (i, got, want)
         if bad:
-            ctx.viol("%s:entry" % name, "entry [i] of the sample array is not the function at point i",
+            ctx.viol("%s:entry%s" % (name, tag), "entry [i] of the sample array is not the function at point i",
                      index=bad[0], got=list(bad[1]), want=list(bad[2]), point=[float(t) for t in conv[bad[0]]])
-        _received_cover(ctx, name, f, [tuple(float(t) for t in row) for row in conv])
-        return
+        _received_cover(ctx, name, f, [tuple(float(t) for t in row) for row in conv], tag)
+        if isinstance(arg, np.ndarray):
+            ctx.mon("sampler_alias")
+            if not np.array_equal(np.asarray(arg, dtype=float).reshape(len(pts), nd), conv):
+                ctx.viol("%s:input-array-modified" % name, "the sampler modified the caller's points array")
+        return _alias_check(ctx, name, returned, inputs)
     else:
-        axes = case["axes"]
-        cont = case.get("container", "list")
-        ctx.cls("container:" + cont)
+        axes = spec["axes"]
+        cont = spec["container"]
+        if not tag:
+            ctx.cls("container:" + cont)
         args = [_container(cont, a) for a in axes]
-        v = np.asarray(fn(f, *args))
+        inputs = [a for a in args if isinstance(a, np.ndarray)]
+        v = fn(f, *args)
         ctx.nontrivial()
         shape = tuple(len(a) for a in axes) + ((3,) if vec else ())
         coords = [[float(t) for t in a] for a in axes]
+        returned = [v]
+        for a_in, a_ref in zip(args, axes):
+            if isinstance(a_in, np.ndarray):
+                ctx.mon("sampler_alias")
+                if not np.array_equal(a_in, np.array(a_ref, dtype=float)):
+                    ctx.viol("%s:input-array-modified" % name, "the sampler modified the caller's coordinate array")
 
-    if not ctx.check(v.shape == shape and v.dtype == np.float64, "%s:shape" % name, "returned sample array has the wrong shape / dtype",
-                     monitor="sampler_entries", got=list(v.shape), want=list(shape)):
-        return
+    if not ctx.check(isinstance(v, np.ndarray) and v.shape == shape and v.dtype == np.float64, "%s:shape%s" % (name, tag),
+                     "returned sample array has the wrong type / shape / dtype", monitor="sampler_entries", want=list(shape)):
+        return None
     bad = None
     nbad = 0
     grid_pts = []
@@ -1368,16 +1502,32 @@ def _run_sampler(case, ctx):
             if bad is None:
                 bad = (idx, got, want, p)
     if bad:
-        ctx.viol("%s:entry" % name, "entry [i,j,k] of the sample array is not the function at (x_i, y_j, z_k)",
+        ctx.viol("%s:entry%s" % (name, tag), "entry [i,j,k] of the sample array is not the function at (x_i, y_j, z_k)",
                  index=list(bad[0]), got=list(bad[1]), want=list(bad[2]), point=list(bad[3]), n_bad=nbad, shape=list(shape))
-    _received_cover(ctx, name, f, grid_pts)
+    _received_cover(ctx, name, f, grid_pts, tag)
+    return _alias_check(ctx, name, returned, inputs)
 
 
-def _received_cover(ctx, name, f, pts):
+def _alias_check(ctx, name, returned, inputs):
+    """arrays returned by ONE call must be distinct memory, also distinct from the caller's input arrays"""
+    for i in range(len(returned)):
+        for j in range(i + 1, len(returned)):
+            ctx.mon("sampler_alias")
+            if np.shares_memory(returned[i], returned[j]):
+                ctx.viol("%s:returned-arrays-share-memory" % name, "two arrays returned by one sampler call share memory "
+                         "(modifying one changes the other)", arrays=[i, j])
+        for a in inputs:
+            ctx.mon("sampler_alias")
+            if np.shares_memory(returned[i], a):
+                ctx.viol("%s:result-shares-memory-with-input" % name, "a returned array shares memory with an input array", array=i)
+    return returned
+
+
+def _received_cover(ctx, name, f, pts, tag=""):
     """argument recorder for samplers: every sample point must have been received by the function"""
     got = set(a for a, _ in f.calls)
     missing = [p for p in pts if p not in got]
     ctx.mon("received_exact", len(pts))
     if missing:
-        ctx.viol("%s:point-never-evaluated" % name, "the function was never called at a sample point",
+        ctx.viol("%s:point-never-evaluated%s" % (name, tag), "the function was never called at a sample point",
                  missing=[list(m) for m in missing[:3]], n_missing=len(missing), n_calls=len(f.calls))
